@@ -387,6 +387,17 @@ func minimiseC19(c *C19Case, v *Violation, budget int) (*C19Case, *Violation) {
 			}
 		}
 	}
+	// 1b. single operations again, until nothing more can be removed
+	for changed := true; changed && budget > 0; {
+		changed = false
+		for i := 0; i < len(best.Program)-1 && budget > 0; i++ {
+			p := append(append([]Op(nil), best.Program[:i]...), best.Program[i+1:]...)
+			if try(p) {
+				changed = true
+				i--
+			}
+		}
+	}
 	// 2. remove adversity from single operations
 	for i := 0; i < len(best.Program) && budget > 0; i++ {
 		if best.Program[i].Adv == 0 {
